@@ -387,6 +387,27 @@ def gen_lifecycle(rng, idx):
         s2.add(op="unhold")
         s2.add(op="advance", ms=r.choice([1, 30000])); s2.add(op="drain")
         return s2.out()
+    if r.random() < 0.07:
+        # a second run of the client after cancel() / async_disconnect: what the previous broker announced (here a small
+        # Maximum Packet Size) must not govern requests made before the new run has its own CONNACK
+        s4 = Sc(rng, "life-%d" % idx)
+        s4.cfg(hosts=r.choice([1, 2]), ka=0, tseed=r.randrange(1, 1 << 30))
+        s4.add(op="connack", props=[[39, r.choice([20, 30, 40])]] + ([[36, 0], [37, 0]] if r.random() < 0.5 else []))
+        s4.run()
+        if r.random() < 0.5: s4.recv()
+        s4.quiesce(ms=30000)
+        if r.random() < 0.5: s4.add(op="cancel_all")
+        else: s4.add(op="disc", id=s4.oid(), rc=0); s4.add(op="advance", ms=6000)
+        s4.add(op="drain")
+        s4.add(op="connack", props=r.choice([[], [[39, 10000]]]))
+        s4.add(op="hold", kinds=["CONNACK"])
+        s4.run()
+        s4.add(op="advance", ms=1)
+        if r.random() < 0.5: s4.pub(r.choice([1, 2]), fill="f" * 60)
+        s4.add(op="disc", id=s4.oid(), rc=r.choice([0, 4]), props=[[31, "closing down, see you " * 3]])
+        s4.add(op="unhold")
+        s4.add(op="advance", ms=6000); s4.add(op="drain")
+        return s4.out()
     if r.random() < 0.08:
         # the SAME service object is ended by a terminal per-operation cancellation while identifier-holding requests are
         # outstanding, then run again with several exchanges outstanding at once (identifiers, quota, queues start afresh?)
@@ -821,6 +842,20 @@ def gen_misbehave(rng, idx):
 FAMILIES = dict(misbehave=gen_misbehave, session=gen_session, send=gen_send, recv=gen_recv, lifecycle=gen_lifecycle, connect=gen_connect, caps=gen_caps, keepalive=gen_keepalive)
 
 
+def serial_wrap_scenarios():
+    """old requests must stay ordered before young ones however many requests were made in between: an unacknowledged
+    QoS 1/2 publish, tens of thousands of (untraced) QoS 0 publishes, another unacknowledged publish, a reconnect"""
+    out = []
+    for (n, q1, q2) in ((33000, 1, 1), (40000, 2, 1)):
+        steps = [dict(op="cfg", hosts=2, ka=0, tseed=3), dict(op="run", id=1), dict(op="recv", id=2, loop=1), dict(op="advance", ms=1),
+                 dict(op="hold"), dict(op="pub", id=10, qos=q1, msg="old"), dict(op="advance", ms=1),
+                 dict(op="burst", n=n),
+                 dict(op="pub", id=11, qos=q2, msg="young"), dict(op="advance", ms=1),
+                 dict(op="fault", ec="reset"), dict(op="advance", ms=3000), dict(op="unhold"), dict(op="quiesce", ms=150000)]
+        out.append(json.dumps(dict(name="send-wrap-%d" % n, steps=steps), separators=(",", ":")))
+    return out
+
+
 def generate(family, seed, count):
     if family == "crash":
         return gen_crash_all(thorough=count > 5000)
@@ -834,7 +869,7 @@ def generate(family, seed, count):
         return l3.scripts_recv("thorough" if count > 5000 else "quick")
     rng = random.Random("%s-%d" % (family, seed))
     f = FAMILIES[family]
-    return [f(rng, i) for i in range(count)]
+    return [f(rng, i) for i in range(count)] + (serial_wrap_scenarios() if family == "send" else [])
 
 
 if __name__ == "__main__":
